@@ -1,6 +1,5 @@
 /- Property C02: the property theorems (and nothing else). -/
-import Frugal.Proofs.WireRT
-import Frugal.Proofs.EncodeRefine
+import Frugal.Proofs.ToWire
 import Frugal.Props.Instances
 namespace Frugal.C02
 open Frugal
@@ -13,13 +12,28 @@ theorem tables_sound : Generated.params.validList = true ∧ Generated.params.va
   ⟨Instances.valid_list, Instances.valid_map, Instances.valid_binaryGuard⟩
 
 /-- For every schema the tag language accepts and every value: the bytes the encoder (as written,
-    through its fast-path tables) produces are exactly the reference encoder's bytes. -/
+    through its fast-path tables) produces are exactly the independent reference encoder's bytes. -/
 theorem encoder_refines_reference (S : Schema) (hS : S.ok = true) (ty : Ty) (v : Val)
     (hok : ty.ok = true) (ht : hasTy S ty v = true) :
     appendAny Generated.params S ty v = refEnc S ty v :=
   appendAny_eq Instances.params_valid S hS v ty hok ht
 
-/-- the reference parser inverts `ser`: equal bytes denote equal Thrift values -/
+/-- ... and those bytes are the Thrift Binary serialisation of the value's denotation under the
+    schema (each written field once, with its declared id and wire type; enum as i32, binary as
+    string, set as SET, list as LIST; counts = number of elements; STOP after every struct) -/
+theorem reference_is_wire_encoding (S : Schema) (hS : S.ok = true) (ty : Ty) (v : Val) (hok : ty.ok = true)
+    (hnil : nilOK ty v = true) (ht : hasTy S ty v = true) (hn : noHolder v = true) :
+    refEnc S ty v = ser (toWire S ty v) :=
+  refEnc_eq_ser S hS v ty hok hnil ht hn
+
+/-- the denotation is a well-formed Thrift value of the declared wire type -/
+theorem denotation_well_formed (S : Schema) (hS : S.ok = true) (ty : Ty) (v : Val) (hok : ty.ok = true)
+    (hnil : nilOK ty v = true) (ht : hasTy S ty v = true) (hf : sizesFit v = true) :
+    wf (toWire S ty v) = true ∧ (toWire S ty v).tag = ty.wire :=
+  ⟨toWire_wf S hS v ty hok hnil ht hf, toWire_tag S v ty hnil ht⟩
+
+/-- the reference parser inverts `ser`: equal bytes denote equal Thrift values, and an independent
+    parser reads the output back to the same value -/
 theorem ser_denotes (v w : TVal) (hv : wf v = true) (hw : wf w = true) (ht : v.tag = w.tag)
     (e : ser v = ser w) : v = w := ser_injective v w hv hw ht e
 
